@@ -4,12 +4,14 @@
 import json, sys
 R='/repo/'
 M={}
-def add(prop, name, file, find, repl, expect, canary=False, note=''):
+def add(prop, name, file, find, repl, expect, canary=False, note='', more=None):
     s=open(R+file).read()
     n=s.count(find)
     if n!=1:
         print(f'!! {prop}/{name}: find text occurs {n} times in {file}', file=sys.stderr)
-    M.setdefault(prop,[]).append(dict(name=name,file=file,find=find,replace=repl,expect=expect,neutral=False,canary=canary,note=note))
+    d=dict(name=name,file=file,find=find,replace=repl,expect=expect,neutral=False,canary=canary,note=note)
+    if more: d['more']=[dict(file=f,find=a,replace=b) for f,a,b in more]
+    M.setdefault(prop,[]).append(d)
 P='pkg/collector/process.go'; T='pkg/collector/tcp.go'; U='pkg/collector/udp.go'
 E='pkg/exporter/process.go'; MSG='pkg/exporter/msg.go'
 IE='pkg/entities/ie.go'; IV='pkg/entities/ie_value.go'; REC='pkg/entities/record.go'; SET='pkg/entities/set.go'; MES='pkg/entities/message.go'
@@ -128,6 +130,24 @@ add('C20','evict-tail',CC,"		flowRecords = flowRecords[1:]\n","		flowRecords = f
 add('C20','reset-unlocked',CC,"	if r.Method == \"POST\" {\n		mutex.Lock()\n		defer mutex.Unlock()\n","	if r.Method == \"POST\" {\n",'R-LOCK.guarded')
 add('C20','signed64-wrong-getter',CC,"				case entities.Signed64:\n					fmt.Fprintf(&buf, \"    %s: %v \\n\", elem.Name, ie.GetSigned64Value())","				case entities.Signed64:\n					fmt.Fprintf(&buf, \"    %s: %v \\n\", elem.Name, ie.GetSigned32Value())",'R-GETTER')
 
+
+# ---- classes learnt from the second round of independent seeds
+REUSE=[("pkg/collector/tcp.go","			buff := make([]byte, length)\n","			if cap(buff) < length {\n				buff = make([]byte, length)\n			}\n			buff = buff[:length]\n")]
+NOCOPY_FIND="		var val []byte\n		if value != nil {\n			val = append(val, value...)\n		}\n		return NewOctetArrayInfoElement(element, val), nil\n"
+NOCOPY_REPL="		return NewOctetArrayInfoElement(element, value), nil\n"
+for prop in ('C11','C01'):
+    add(prop,'octets-alias-reused-buffer',T,"		defer close(doneCh)\n		for {\n","		defer close(doneCh)\n		var buff []byte\n		for {\n",'R-FRAME.no-alias',False,'two cooperating sites',more=REUSE+[(IE,NOCOPY_FIND,NOCOPY_REPL)])
+add('C03','truncate-skips-empty-body',P,"bodyLen >= 0 && bodyLen < packetBuffer.Len()","bodyLen > 0 && bodyLen < packetBuffer.Len()",'R-BOUNDS.setlen')
+add('C04','write-registry-element',P,"		return entities.DecodeAndCreateInfoElementWithValue(element, nil)\n","		if element.Len == entities.VariableLength && elementLength != entities.VariableLength {\n			element.Len = elementLength\n		}\n		return entities.DecodeAndCreateInfoElementWithValue(element, nil)\n",'R-OWNER.info-element')
+add('C04','delete-on-data-error',P,"		set, err = cp.decodeDataSet(packetBuffer, obsDomainID, setID)\n		if err != nil {\n","		set, err = cp.decodeDataSet(packetBuffer, obsDomainID, setID)\n		if err != nil {\n			cp.deleteTemplate(obsDomainID, setID)\n",'R-OWNER.template-delete')
+add('C05','reset-skips-when-common-zero',A,"		if !isDelta {\n			continue\n		}\n		for _, array := range","		if !isDelta {\n			continue\n		}\n		if ie, _, exist := record.GetInfoElementWithValue(element); exist && ie.IsValueEmpty() {\n			continue\n		}\n		for _, array := range",'R-VALUE.reset')
+add('C05','early-return-idle-interval',A,"	antreaThroughputElements := a.aggregateElements.ThroughputElements\n	antreaSourceThroughputElements := a.aggregateElements.SourceThroughputElements\n	antreaDestinationThroughputElements := a.aggregateElements.DestinationThroughputElements\n	throughput :=","	if totalCountDiff == 0 && reverseTotalCountDiff == 0 {\n		return nil\n	}\n	antreaThroughputElements := a.aggregateElements.ThroughputElements\n	antreaSourceThroughputElements := a.aggregateElements.SourceThroughputElements\n	antreaDestinationThroughputElements := a.aggregateElements.DestinationThroughputElements\n	throughput :=",'R-VALUE.step')
+add('C06','expiry-clamp-inverted',A,"		if expiryDuration < 0 {\n			return MinExpiryTime\n		}\n		return expiryDuration\n","		if expiryDuration > 0 {\n			return expiryDuration\n		}\n",'R-HEAP.expiry-clamp')
+add('C09','json-mode-skips-count',E,"	if rec.GetFieldCount() != uint16(len(ep.templatesMap[templateID].elements)) {","	if ep.sendJSONRecord {\n		return nil\n	}\n	if rec.GetFieldCount() != uint16(len(ep.templatesMap[templateID].elements)) {",'R-GATE.sanity-tests')
+add('C10','split-lock-delete',P,"	cp.mutex.Lock()\n	defer cp.mutex.Unlock()\n	template, ok := cp.templatesMap[obsDomainID][templateID]\n	if !ok {\n		return false\n	}\n	for _, condFn := range condFns {\n		if !condFn(template) {\n			return false\n		}\n	}\n","	cp.mutex.RLock()\n	template, ok := cp.templatesMap[obsDomainID][templateID]\n	if !ok {\n		cp.mutex.RUnlock()\n		return false\n	}\n	for _, condFn := range condFns {\n		if !condFn(template) {\n			cp.mutex.RUnlock()\n			return false\n		}\n	}\n	cp.mutex.RUnlock()\n	cp.mutex.Lock()\n	defer cp.mutex.Unlock()\n",'R-LOCK.whole-op')
+add('C02','getbuffer-continue-on-error',REC,"		if err != nil {\n			klog.Error(err)\n		}\n		index += element.GetLength()","		if err != nil {\n			klog.Error(err)\n			continue\n		}\n		index += element.GetLength()",'R-RFC.record-layout')
+add('C16','reset-keeps-type-when-encoding',SET,"	s.setType = Undefined\n	s.records = nil\n","	if s.isDecoding {\n		s.setType = Undefined\n	}\n	s.records = nil\n",'R-RESET.all-paths')
+
 # ---- neutral edits (must stay silent for EVERY property)
 N=[]
 def neutral(name,file,find,repl,note=''):
@@ -144,6 +164,9 @@ neutral('size-gate-geq',MSG,"	if msgLen > entities.MaxSocketMsgSize {\n","	if ms
 neutral('len-threshold-leq-254',IV,"func (s *StringInfoElement) GetLength() int {\n	if len(s.value) < 255 {","func (s *StringInfoElement) GetLength() int {\n	if len(s.value) <= 254 {",'the same prefix threshold written with <=')
 neutral('cap-test-flipped',CC,"	if len(flowRecords) >= maxFlowRecords {\n","	if maxFlowRecords <= len(flowRecords) {\n",'operands of the cap comparison swapped')
 neutral('stop-test-rewritten',A,"		if topItem.activeExpireTime.After(currTime) && topItem.inactiveExpireTime.After(currTime) {\n			// We do not have to check other items anymore.\n			break\n		}\n","		if topItem.activeExpireTime.After(currTime) {\n			if topItem.inactiveExpireTime.After(currTime) {\n				// We do not have to check other items anymore.\n				break\n			}\n		}\n",'&& rewritten as nested ifs')
+neutral('reuse-read-buffer-decoder-copies',T,"		defer close(doneCh)\n		for {\n","		defer close(doneCh)\n		var buff []byte\n		for {\n",'read buffer reused while every decoder case copies (first half of a two-site fault, harmless alone)')
+N[-1]['more']=[dict(file=f,find=a,replace=b) for f,a,b in REUSE]
+neutral('octets-not-copied-fresh-buffer',IE,NOCOPY_FIND,NOCOPY_REPL,'octet array keeps the input slice while the buffer is fresh per message (second half, harmless alone)')
 for p,ms in M.items():
     json.dump(ms, open(f'/verif/checker/mutants/{p}.json','w'), indent=1)
 json.dump(N, open('/verif/checker/mutants/neutral.json','w'), indent=1)
